@@ -79,7 +79,7 @@ def run(ctx):
     if corp:
         problems += ioc.run_batch(ctx, corp, PROP, stats, query_gen=_qgen, label="k")
     if ctx.thorough or escalate:
-        n_files = ctx.n(110, 500)
+        n_files = ctx.n(110, 380)
         sizes = [0, 1, 2, 3, 4, 6, 8, 12, 16, 25] + ([25, 40, 60, 120, 200] if ctx.thorough else [])
     else:
         n_files, sizes = 64, [0, 1, 2, 3, 4, 5, 6, 8, 10, 12, 16, 25]
@@ -88,7 +88,7 @@ def run(ctx):
     # search: property-level probe on more histories, without the model (always when thorough,
     # or when the proof / correspondence / pins are not clean)
     if ctx.thorough or escalate or problems:
-        extra = gen_cases(ctx, ctx.n(90, 400), [1, 2, 3, 4, 5, 6, 8, 10])
+        extra = gen_cases(ctx, ctx.n(90, 300), [1, 2, 3, 4, 5, 6, 8, 10])
         problems += ioc.run_batch(ctx, extra, PROP, stats, query_gen=_qgen, with_model=False, label="s")
         ctx.extra["search"] = {"ran": True, "evaluations": len(extra), "oracle": "python restatement of the property from the inputs (expected_event / oracle_c11)"}
     else:
